@@ -7,6 +7,7 @@ from vmon import oracle as orc
 from vmon.checks import tokcommon as tc
 from vmon.checks.common import obs, fail
 
+SHUFFLE_EVERY = 3
 SHUFFLE = "piece.tracks"    # worker: every seventh case is built by add_absolute_message in shuffled order
 CANONICAL_ABS = True   # the function under test pairs / merges over the canonically sorted list (oracle.abs_order)
 TRACK_CHANNELS = "piece"   # worker: every fourth case moves each track's notes to another channel
@@ -38,6 +39,27 @@ def make_case(rng, i, tier):
     if stratum == "V":
         cfg["pitch"] = [60, 64]
     piece = tc.valid_piece(rng, cfg, stratum="A" if stratum in ("A", "V") else "B")
+    if piece is not None and i % 3 == 1:
+        # legato repetitions: a note of the same pitch starting on the very tick the previous one ends (the note-off and the
+        # note-on of one key share a tick; which of them the library sees first is a matter of its canonical order)
+        import copy
+        import random
+        r7 = random.Random(f"c01-legato:{i}")
+        trial = copy.deepcopy(piece)
+        added = 0
+        for t in trial["tracks"]:
+            for n in list(t["notes"])[:3]:
+                v = r7.choice(tc.values_of(cfg))
+                cand = [n[0], n[1], n[2] + n[3], v, r7.randint(1, 127)]
+                if all(not (x[1] == cand[1] and not (cand[2] + cand[3] <= x[2] or cand[2] >= x[2] + x[3])) for x in t["notes"]):
+                    t["notes"].append(cand)
+                    added += 1
+        if added:
+            info = tc.analyse(trial, cfg)
+            ok = info["valid"] and (stratum == "B" or (info["greedy_safe"] and info["duration_ok"] and not info["clock_short"]))
+            if ok and all(n[2] + n[3] <= trial["total"] or stratum == "B" for t in trial["tracks"] for n in t["notes"]):
+                trial["info"] = info
+                piece = trial
     return {"cfg": cfg, "piece": piece, "stratum": stratum}
 
 
